@@ -149,6 +149,7 @@ func init() {
 	register(&PropertySpec{
 		ID: "C12",
 		Rules: []RuleSpec{
+			{"detach-before-release", "an instruction that takes an element out of a compound item removes it from the container before it tells the reference counter (refs.Remove): an element that references its container is not released a second time by the container's own recursive release, so the counter never falls below what is reachable", ruleDetachBeforeRelease},
 			{"budget-shared", "a recursive walk over a compound item counts down budgets that its caller hands down by pointer; it never keeps a budget in a local of its own, which would start afresh at every nesting level and bound one level instead of the operation", func(c *Ctx) { ruleBudgetShared(c, "pkg/vm", "pkg/vm/stackitem") }},
 			{"err-discipline", "no error returned by a function of the module is discarded (called as a statement or assigned to _) in the VM, except at the tabled sites whose reason is recorded: a dropped error is a dropped check or a lost write", func(c *Ctx) { ruleErrDiscipline(c, "pkg/vm", "pkg/vm/stackitem") }},
 			{"absent-is-nil", "a lookup that returns nil for a missing key and may return a stored empty value (dao.GetStorageItem, BoltDB bucket Get) is never tested for absence by length", func(c *Ctx) { ruleAbsentIsNil(c, "pkg/vm", "pkg/vm/stackitem") }},
